@@ -15,9 +15,11 @@ _UUID_CHAR = "[0-9a-fA-F-]"
 UUID_PATTERN = "^%s{36}$" % _UUID_CHAR
 
 _RC_TRAIT_CHAR = "[A-Z0-9_]"
-_RC_TRAIT_PATTERN = "^%s+$" % _RC_TRAIT_CHAR
+# NOTE: in Python "$" also matches just before a trailing newline, so a
+# name like "CUSTOM_A\n" would pass; "(?!\n)" rules that out.
+_RC_TRAIT_PATTERN = "^%s+$(?!\n)" % _RC_TRAIT_CHAR
 RC_PATTERN = _RC_TRAIT_PATTERN
-_CUSTOM_RC_TRAIT_PATTERN = "^CUSTOM_%s+$" % _RC_TRAIT_CHAR
+_CUSTOM_RC_TRAIT_PATTERN = "^CUSTOM_%s+$(?!\n)" % _RC_TRAIT_CHAR
 CUSTOM_RC_PATTERN = _CUSTOM_RC_TRAIT_PATTERN
 CUSTOM_TRAIT_PATTERN = _CUSTOM_RC_TRAIT_PATTERN
 CONSUMER_TYPE_PATTERN = _RC_TRAIT_PATTERN
